@@ -7,7 +7,7 @@ package mux
 
 // representation invariant established by NewShardQueue (size >= 1 is the documented usage)
 //@ pred sqok(q *ShardQueue) = q.size > 0 && len(q.getters) == q.size && len(q.locks) == q.size && len(q.list) == q.size
-//@     && 0 <= q.w && q.w < q.size && 0 <= q.r && q.r < q.size && q.conn != nil
+//@     && 0 <= q.w && q.w < q.size && 0 <= q.r && q.r < q.size && q.conn != nil && q.list#arr != q.locks#arr
 //@     && (forall i int :: 0 <= i && i < len(q.list) ==> 0 <= q.list[i] && q.list[i] < q.size)
 
 // number of getters invoked so far by the running deal (ghost)
@@ -60,3 +60,47 @@ package mux
 //@   modifies dealn
 //@   ghost before call dyn#1: assert callee#id == gts[dealn]#id; dealn = dealn + 1
 //@   loop 1 invariant dealn == rangeindex + 1 && -1 <= rangeindex && rangeindex < len(gts)
+
+// ghost flags for the publish / re-check shape of foreach's task (DESIGN.md 6.3)
+//@ ghost global sqCleared bool
+//@ ghost global sqRechecked bool
+//@ ghost global sqSeen int
+//@ ghost global sqRestarted bool
+
+//@ func (*mux.ShardQueue).flush
+//@   property C17
+//@   requires q.conn != nil
+//@   modifies nothing
+
+//@ func (*mux.ShardQueue).foreach
+//@   property C17
+//@   requires sqok(q)
+//@   ensures sqok(q)
+//@   modifies q.runNum
+
+//@ func (*mux.ShardQueue).foreach$1
+//@   property C17
+//@   requires q != nil && sqok(q)
+//@   threadlocal dealn == 0 && !sqCleared && !sqRechecked && !sqRestarted
+//@   ensures sqok(q)
+//@   ensures sqCleared && sqRechecked && (sqSeen > 0 ==> sqRestarted)
+//@   modifies anything
+//@   ghost after call (*mux.ShardQueue).deal#1: dealn = 0
+//@   ghost after call atomic.StoreInt32#1: sqCleared = true
+//@   ghost after call atomic.LoadInt32#2: sqRechecked = sqCleared; sqSeen = result
+//@   ghost before call (*mux.ShardQueue).foreach#1: sqRestarted = sqRechecked
+//@   loop 1 invariant sqok(q) && dealn == 0 && !sqCleared && !sqRechecked && !sqRestarted
+
+//@ func (*mux.ShardQueue).Close
+//@   property C17
+//@   ensures old(q.state) != 0 ==> result != nil && q.state == old(q.state)
+//@   ensures old(q.state) == 0 ==> result == nil && q.state == 2
+//@   modifies q.state
+//@   loop 1 invariant q.state != 0
+
+//@ func mux.NewShardQueue
+//@   property C17
+//@   requires size >= 1 && size <= 2147483647 && conn != nil
+//@   ensures fresh(queue) && sqok(queue) && queue.state == 0
+//@   loop 1 invariant -1 <= rangeindex && len(queue.getters) == size
+//@   modifies nothing
